@@ -7,7 +7,7 @@ import json, time, random, collections
 from lib.common import *
 
 FEATS = [("kernel", {"openat2": True}), ("emulated", {"openat2": False})]
-RENAME_FLAGS = {"": 0, "NOREPLACE": 1, "EXCHANGE": 2}
+RENAME_FLAGS = {"": 0, "NOREPLACE": 1, "EXCHANGE": 2, "WHITEOUT": 4, "WHITEOUT_NOREPLACE": 5}
 
 
 def rflags(op):
